@@ -459,6 +459,10 @@ class RaftNode(Entity):
 
             if existing and existing.term != entry_term:
                 self._log.truncate_from(idx)
+                # The truncated entries will never commit: their client futures
+                # must not be resolved by whatever lands at these indices later.
+                for stale in [k for k in self._pending_futures if k >= idx]:
+                    del self._pending_futures[stale]
                 self._log.append(entry_term, entry_dict["command"])
             elif not existing:
                 self._log.append(entry_term, entry_dict["command"])
